@@ -310,6 +310,27 @@ def run(rep, pdb, tier):
             ok = r_[0] == "op" and r_[1] == "+" and ((r_[2][0] == "num" and r_[2][1] > 0 and r_[3][0] == "call" and str(r_[3][1]).endswith("::abs")) or
                                                   (r_[3][0] == "num" and r_[3][1] > 0 and r_[2][0] == "call" and str(r_[2][1]).endswith("::abs")))
         rep.add("escape-step", rule, ok, lg["body"], "%s" % (show(pol[0], lc)[:120] if pol else None), where=loc(lg["body"]))
+    # ---- laguer stops on scale-free tests only
+    if lg is not None:
+        lc = Ctx.for_fn(pdb, lg)
+        rets = [r_ for r_ in walk(lg["body"]) if r_.get("k") == "Ret" and any(a.get("k") in ("For", "While", "Loop") for a in ancestors(r_))]
+        bad_s = []
+        for r_ in rets:
+            for a in ancestors(r_):
+                if a.get("k") in ("For", "While", "Loop"):
+                    break
+                if a.get("k") != "If":
+                    continue
+                for at in cond_atoms(lc, a["cond"], True) + cond_atoms(lc, a["cond"], False):
+                    if at[0] in ("cmp", "ncmp") and at[1] in ("<", "<=", ">", ">="):
+                        consts = [t for t in (at[2], at[3]) if (t[0] == "num" and t[1] != 0) or t[0] == "def"]
+                        floats = [t for t in (at[2], at[3]) if t[0] == "call" and str(t[1]).endswith(("::abs", "::norm", "::abs_sqr", "::max", "::min"))]
+                        if consts and floats:
+                            bad_s.append(r_)
+        rep.add("scale-free-stops/laguer", "laguer stops iterating only on tests that are invariant under scaling the polynomial (|p(x)| <= its own rounding bound, x unchanged): an "
+                "ordered comparison of a magnitude with a constant stops at once on every polynomial whose coefficients are uniformly small (p and c*p have the same roots)",
+                not bad_s, bad_s[0] if bad_s else lg["body"], "returns inside the iteration: %d, guarded by an absolute threshold: %d" % (len(rets), len(bad_s)),
+                where=loc(bad_s[0]) if bad_s else loc(lg["body"]))
     # ---- polish
     rule = "refinement runs laguer on each poly_roots[j], j in 0..degree, against a clone of the undeflated coefficients that is never written"
     lag = pdb.fn("%s::laguer" % PC)
